@@ -8,6 +8,8 @@
 //!                                                      a host uses progs[min(incarnation, len-1)])
 //!      | ["step"] | ["run"] | ["crash", sel] | ["bounce", sel] | ["probe"] | ["wall_sleep", ms]
 //! sel  = {"h": i} | {"ip": i} | {"re": "regex"}
+//! (a host prog may set "factory_workers": true: the factory closure then spawns two workers synchronously,
+//!  one with spawn_local and one with tokio::spawn, before it returns the software future)
 //! prog = {"main": [op ..], "end": "ok"|"err"|"err_io"|"err_cancelled"|"err_joinpanic"|"panic"|"never",
 //!         (err: a string error; err_io: an io::Error; err_cancelled: the JoinError of a worker task
 //!          the software aborted; err_joinpanic: the JoinError of a worker that panicked)
@@ -32,6 +34,11 @@ use std::time::{Duration, SystemTime, UNIX_EPOCH};
 use tokio::time::Instant;
 use turmoil::verif::Decision;
 
+// Workers spawned SYNCHRONOUSLY by a host's software factory closure (before it returns the async block):
+// [host, incarnation, kind (0 = spawn_local, 1 = tokio::spawn), event index] once per tick they run.
+static CUR_EV: std::sync::atomic::AtomicI64 = std::sync::atomic::AtomicI64::new(-1);
+static SPAWN_WORKER_RUNS: std::sync::Mutex<Vec<(usize, u64, i64)>> = std::sync::Mutex::new(Vec::new());
+
 #[derive(Default)]
 struct Shared {
     log: RefCell<Vec<Value>>,
@@ -41,6 +48,8 @@ struct Shared {
     starts: RefCell<Vec<u64>>,
     /// per host: guards alive
     alive: RefCell<Vec<i64>>,
+    /// runs of the spawn_local worker started by the factory closure: [host, incarnation, event index]
+    local_worker_runs: RefCell<Vec<Value>>,
     /// clock reads made by the software factory closure of a host on every (re)start:
     /// [host, incarnation, event index, sim_elapsed, since_epoch]
     factory: RefCell<Vec<Value>>,
@@ -274,6 +283,8 @@ fn run_case(case: &Value) -> Value {
     let _ = turmoil::verif::take_decisions();
 
     let sh = Rc::new(Shared::default());
+    SPAWN_WORKER_RUNS.lock().unwrap().clear();
+    CUR_EV.store(-1, std::sync::atomic::Ordering::SeqCst);
     let mut ips: Vec<IpAddr> = Vec::new();
     let mut kinds: Vec<bool> = Vec::new(); // is_client
     let mut evs: Vec<Value> = Vec::new();
@@ -281,6 +292,7 @@ fn run_case(case: &Value) -> Value {
 
     for (k, ev) in case["script"].as_array().unwrap().iter().enumerate() {
         sh.cur_ev.set(k as i64);
+        CUR_EV.store(k as i64, std::sync::atomic::Ordering::SeqCst);
         let name = ev[0].as_str().unwrap();
         let o = match name {
             "client" | "host" => {
@@ -307,6 +319,23 @@ fn run_case(case: &Value) -> Value {
                         let ep = turmoil::since_epoch().map(|d| d.as_nanos() as u64);
                         sh2.factory.borrow_mut().push(json!([h, inc, sh2.cur_ev.get(), se, ep]));
                         let p = progs[(inc as usize).min(progs.len() - 1)].clone();
+                        if p["factory_workers"].as_bool().unwrap_or(false) {
+                            // the factory itself starts the host's workers, before the async block exists
+                            let sh3 = sh2.clone();
+                            tokio::task::spawn_local(async move {
+                                loop {
+                                    sh3.local_worker_runs.borrow_mut().push(json!([h, inc, sh3.cur_ev.get()]));
+                                    tokio::time::sleep(tick).await;
+                                }
+                            });
+                            tokio::spawn(async move {
+                                loop {
+                                    let at = CUR_EV.load(std::sync::atomic::Ordering::SeqCst);
+                                    SPAWN_WORKER_RUNS.lock().unwrap().push((h, inc, at));
+                                    tokio::time::sleep(tick).await;
+                                }
+                            });
+                        }
                         software(sh2.clone(), h, inc, p, tick)
                     });
                 }
@@ -387,6 +416,8 @@ fn run_case(case: &Value) -> Value {
         "log": *sh.log.borrow(),
         "drops": *sh.drops.borrow(),
         "factory": *sh.factory.borrow(),
+        "local_worker_runs": *sh.local_worker_runs.borrow(),
+        "spawn_worker_runs": SPAWN_WORKER_RUNS.lock().unwrap().iter().map(|d| json!([d.0, d.1, d.2])).collect::<Vec<_>>(),
         "epoch_ns": epoch_ns,
         "panic": Value::Null,
     });
